@@ -416,14 +416,18 @@ def normalize_repo(repo: Repo) -> dict[str, object]:
                     report.setdefault("renamed_back", []).append(f"{mi.relpath}:{fn.qualname}")  # type: ignore[union-attr]
         # ---- new constants
         consts: dict[str, ast.AST] = {}
-        for name, st in mi.assigns_all:
-            if name in known_globals or name in mi.functions or name in mi.classes:
-                continue
-            if sum(1 for n, _ in mi.assigns_all if n == name) != 1:
-                continue
-            v = _const_value(st.value)  # type: ignore[attr-defined]
-            if v is not None:
-                consts[name] = v
+        for _round in range(3):
+            for name, st in mi.assigns_all:
+                if name in known_globals or name in mi.functions or name in mi.classes or name in consts:
+                    continue
+                if sum(1 for n, _ in mi.assigns_all if n == name) != 1:
+                    continue
+                val = st.value  # type: ignore[attr-defined]
+                if consts:
+                    val = _ConstProp(consts).visit(copy.deepcopy(val))
+                v = _const_value(val)
+                if v is not None:
+                    consts[name] = v
         # ---- new helpers
         helpers_mod = {f.name: f for f in mi.functions.values() if f.qualname not in known_funcs}
         all_fns: list[FunctionInfo] = list(mi.functions.values()) + [m for c in mi.classes.values() for m in c.methods.values()]
